@@ -72,7 +72,8 @@ def main():
     except BaseException as e:  # fail closed
         if isinstance(e, (KeyboardInterrupt, SystemExit)):
             raise
-        chk.broken('harness:' + type(e).__name__, traceback.format_exc())
+        if not isinstance(e, common.StopCheck):
+            chk.broken('harness:' + type(e).__name__, traceback.format_exc())
     signal.alarm(0)
     chk.workers = []
     for wf, pr in procs:
